@@ -414,6 +414,15 @@ Fixpoint wrap_disc_calls (ds : dspace) (outs : list (option operand)) (rs : list
       end
   end.
 
+(* the method combinations the discretized element refuses (before calling NumPy) *)
+Definition disc_reject (m : meth) (keepdims all_elems : bool) : option errk :=
+  match m with
+  | MReduce => if keepdims then Some EValue else None
+  | MReduceat => Some EValue
+  | MOuter => if negb all_elems then Some EType else None
+  | _ => None
+  end.
+
 Definition disc_ufunc (NP : npsem) (st : store) (ds : dspace) (nout : nat) (m : meth)
            (ins : list operand) (kw : kwargs) (outs : list (option operand))
   : res (list operand * store) :=
@@ -437,10 +446,9 @@ Definition disc_ufunc (NP : npsem) (st : store) (ds : dspace) (nout : nat) (m : 
           end
       end
   | _ =>
-      if (match m with MReduce => kw_keepdims kw | _ => false end) then Err EValue
-      else if (match m with MReduceat => true | _ => false end) then Err EValue
-      else if (match m with MOuter => negb (forallb is_disc ins) | _ => false end) then Err EType
-      else
+      match disc_reject m (kw_keepdims kw) (forallb is_disc ins) with
+      | Some e => Err e
+      | None =>
       let out_t := match outs_t with [o] => o | _ => None end in
       let out_orig := match outs with [o] => o | _ => None end in
       match tens_ufunc NP st (ds_ts ds) nout m ins_t kw' (if is_at m then [] else [out_t]) with
@@ -497,6 +505,7 @@ Definition disc_ufunc (NP : npsem) (st : store) (ds : dspace) (nout : nat) (m : 
           | _ => Err EUnmodelled
           end
       end
+      end
   end.
 
 (* ---------------- element wrapping / asarray ---------------- *)
@@ -515,6 +524,30 @@ Definition t_element (st : store) (sp : tspace) (inp : operand) : res (operand *
       else let (st', t) := alloc st (cast_arr (ts_dt sp) (rd st id)) in Ok (OpTens sp t, st')
   | _ => Err EUnmodelled
   end.
+(* The same with the memory LAYOUT of the array, its writeable flag and the
+   order= argument made explicit (measured on the code and pinned by the `wrap`
+   case set): NumpyTensorSpace.element / DiscretizedSpace.element(arr, order)
+   call np.array(arr, copy=False, dtype=space.dtype, ndmin=ndim, order=order) and
+   copy read-only arrays.  So the buffer is SHARED iff the dtype matches, the
+   array is writeable and (order is None -- then ANY layout is accepted:
+   C-contiguous, Fortran-contiguous, transposed, strided, negative strides --
+   or the array already has the requested contiguity). *)
+Inductive layout := LayC | LayF | LayCF | LayStrided.   (* C-, F-contiguous, both, neither *)
+Inductive order := OrdC | OrdF.
+Definition layout_ok (o : option order) (l : layout) : bool :=
+  match o, l with
+  | None, _ => true
+  | Some OrdC, (LayC | LayCF) => true
+  | Some OrdF, (LayF | LayCF) => true
+  | _, _ => false
+  end.
+Definition t_element_lay (st : store) (sp : tspace) (id : nat) (writeable : bool) (l : layout)
+           (o : option order) : res (operand * store) :=
+  if negb (shape_eqb (a_shape (rd st id)) (ts_shape sp)) then Err EValue
+  else if dt_eqb (a_dt (rd st id)) (ts_dt sp) && writeable && layout_ok o l
+  then Ok (OpTens sp id, st)
+  else let (st', t) := alloc st (cast_arr (ts_dt sp) (rd st id)) in Ok (OpTens sp t, st').
+
 (* x.asarray(): the data buffer itself *)
 Definition asarray (o : operand) : option nat := op_buf o.
 
